@@ -69,5 +69,10 @@ REGISTRY = {
                     "replayed on a freshly analysed real API object in its own process (API.to_dict() digests around every generation, text digests per generation, renderings of the shared inherited member), and "
                     "CLI re-runs into a populated and an empty output directory are compared; C16_Trace judges Pure, Idem, SameEverywhere and Rerun.",
             "ref": "DESIGN.md section 7 C16", "note": BASE_NOTE, "technique": TECH},
+    "C08": {"text": "spec/Determinism.tla models the two ways an iteration order is consumed (Choose the minimum of a total order; Emit a collection sorted) and TLC checks order-independence for every "
+                    "candidate set of up to three elements under every permutation; it also fixes the environment matrix (baseline, hash seeds, enumeration orders, working directory, path spellings, repetition, mixed). "
+                    "Two packages rich in multi-element unordered collections (re-export ties at equal depth, several type variables, inferred return types, duplicate short names, many imports, unions, markers, "
+                    "foreign classes) are run under every environment and C08_Trace judges equality of the complete output digest against the baseline run.",
+            "ref": "DESIGN.md section 7 C08", "note": BASE_NOTE + " Seeds and enumeration orders are sampled, not exhausted.", "technique": TECH},
 }
 NOT_APPLICABLE = {}
